@@ -108,6 +108,7 @@ func alphabet(sc scenario, thorough bool) []step {
 }
 
 var workDir string
+var dirMade bool
 
 func readContent(path string) string {
 	b, err := os.ReadFile(path)
@@ -120,14 +121,18 @@ func readContent(path string) string {
 func runHistory(t *testing.T, sc scenario, h []step) (out bfs.Outcome) {
 	dir := filepath.Join(workDir, "w")
 	path := filepath.Join(dir, "config.yml")
-	_ = os.RemoveAll(dir)
-	if err := os.MkdirAll(dir, 0o755); err != nil {
-		return bfs.Outcome{FailKey: "harness/mkdir", FailDesc: err.Error()}
+	if !dirMade {
+		if err := os.MkdirAll(dir, 0o755); err != nil {
+			return bfs.Outcome{FailKey: "harness/mkdir", FailDesc: err.Error()}
+		}
+		dirMade = true
 	}
 	if sc.Initial != "" {
 		if err := os.WriteFile(path, []byte(sc.Initial), 0o600); err != nil {
 			return bfs.Outcome{FailKey: "harness/write", FailDesc: err.Error()}
 		}
+	} else {
+		_ = os.Remove(path)
 	}
 	synctest.Test(t, func(t *testing.T) {
 		ctx, cancel := context.WithCancel(context.Background())
@@ -293,6 +298,10 @@ var scenarios = []scenario{
 func TestVerif(t *testing.T) {
 	vrt.Run(t, "C38", func(r *vrt.R) {
 		workDir = t.TempDir()
+		if d, err := os.MkdirTemp("/dev/shm", "verif-c38-"); err == nil { // tmpfs: file ops dominate the run time
+			workDir = d
+			defer os.RemoveAll(d)
+		}
 		var rp bfs.ReplayData[step]
 		if r.ReplayInto(&rp) {
 			r.Eval(1)
